@@ -103,7 +103,33 @@ def _math(I):
                 return Sym(smt.VInt(z3.ToInt(smt.get_x(v.term))))
             I_.raise_builtin("TypeError", "must be real number, not %s" % k)
         raise OutOfReach("math.floor symbolic")
-    return module("math", floor=Native("floor", floor))
+    def isfinite(I_, a, k):
+        v = a[0]
+        if isinstance(v, (int, float)) and not isinstance(v, Sym):
+            try:
+                return math.isfinite(v)
+            except OverflowError as e:
+                I_.raise_builtin("OverflowError", str(e))
+        if isinstance(v, Sym):
+            kd = I_.kind(v)
+            if kd in ("int", "real", "bool"):
+                return True      # symbolic numbers are mathematical (finite) integers / reals: see the trusted base
+            I_.raise_builtin("TypeError", "must be real number, not %s" % kd)
+        I_.raise_builtin("TypeError", "must be real number")
+
+    def trunc(I_, a, k):
+        v = a[0]
+        if isinstance(v, (int, float)) and not isinstance(v, Sym):
+            return math.trunc(v)
+        if isinstance(v, Sym):
+            kd = I_.kind(v)
+            if kd == "int":
+                return v
+            if kd == "real":
+                x = smt.get_x(v.term)
+                return Sym(smt.VInt(z3.If(x >= 0, z3.ToInt(x), -z3.ToInt(-x))))
+        raise OutOfReach("math.trunc symbolic")
+    return module("math", floor=Native("floor", floor), isfinite=Native("isfinite", isfinite), trunc=Native("trunc", trunc))
 
 
 @stdlib("hashlib")
